@@ -10,6 +10,7 @@ Driver for C05. Case line (strings hex-encoded, lists as `n item…`):
        O <mode 0=partial 1=full 2=runAll 3=interface> <maxErrors> <maxFields> <n> <redacted path>… <singleRule>
        F <n> { <json path> <path as shipped> <tag> <n> <shown path>… <shape of e.Value()> }*
        I <n> { <path> <code> }*        (what the type's Validate() method returns; modes 2 = all strategies, 3 = interface only)
+       C <strategy 0=auto 1=interface 2=tags> <runAll> <interface applicable> <tags applicable> <custom: 0 | 1 <n> { <path> <code> }*>
     => PM <n> <path>… LV <n> <path>… V ( N | P | E <truncated> <n> { <path> <code> <hidden> }* )
        K <leak> D <deterministic>
 
@@ -82,6 +83,11 @@ structure Case where
   iface : List FieldErr
   opts : Opts
   single : Bool
+  /-- `Validate`'s own glue: strategy asked for, `WithRunAll`, `isApplicable`, what the custom validator returned -/
+  strat : Strat
+  runAll : Bool
+  applic : Applic
+  custom : Option (List FieldErr)
   fullErrs : List (Path × Viol)
   /-- the same errors with the path as `namespaceToJSONPath` computed it before the repair of K05e -/
   fullErrsAsIs : List (Path × Viol)
@@ -110,7 +116,15 @@ def pCase : P Case := do
   let fe ← list (do let p ← str; let ap ← str; let t ← pViol; let sh ← pShape; pure (p, ap, t, sh))
   lit "I"
   let ie ← list (do let p ← str; let c ← str; pure ({ path := p, code := c, hidden := false } : FieldErr))
-  pure { top := top, rules := rules, shape := shape, var := var, full := mode != 0, mode := mode, iface := ie,
+  lit "C"
+  let sn ← nat
+  let ra ← bool
+  let ai ← bool
+  let at_ ← bool
+  let cu ← opt (list (do let p ← str; let c ← str; pure ({ path := p, code := c, hidden := false } : FieldErr)))
+  let strat : Strat := if sn == 1 then .iface else if sn == 2 then .tags else .auto
+  pure { top := top, rules := rules, shape := shape, var := var, strat := strat, runAll := ra,
+         applic := { iface := ai, tags := at_, schema := false }, custom := cu, full := mode != 0, mode := mode, iface := ie,
          opts := { maxErrors := me, maxFields := mf, redacted := red }, single := single,
          fullErrs := fe.map fun (p, _, t, _) => (p, t), fullErrsAsIs := fe.map fun (_, ap, t, _) => (ap, t),
          fullErrsT := fe.map fun (p, _, t, sh) => (p, ({ tag := t.tag, shows := reveals (maxRecursionDepth + 1) p sh } : Viol)) }
@@ -171,17 +185,21 @@ def modelLeaves (pm : List Path) : List Path := leafPaths pm
     that the leaf list computed for the comparison is reused and the compiled code goes through the
     `@[csimp]` implementation of `leafPaths` (`Lemmas/PresenceLeaf.lean`) -/
 def modelValidate (c : Case) (leaves : List Path) : VObs :=
-  if c.mode == 2 then .res (validateAll [coerce c.iface c.opts, validateFull c.fullErrsT c.opts] c.opts)
-  else if c.mode == 3 then .res (coerce c.iface c.opts)
-  else if c.mode == 1 then .res (validateFull c.fullErrsT c.opts)
-  else .res (partialFrom mkErr leaves (ownTagsT c.shape c.var) c.opts)
+  let tagsRes := if c.mode == 0 then partialFrom mkErr leaves (ownTagsT c.shape c.var) c.opts
+                 else validateFull c.fullErrsT c.opts
+  .res (validateTop c.custom c.runAll c.strat c.applic
+    { iface := coerce c.iface c.opts, tags := tagsRes, schema := none } c.opts)
 
 /-- errors that ought to be reported, evaluated on the presence set the implementation reported -/
 def want (c : Case) (o : Obs) : List Want :=
   let ifaceWant : List Want := c.iface.map fun e => ⟨e.path, e.code, []⟩
   let tagWant : List Want := c.fullErrs.map fun (p, v) => ⟨p, tagPrefix ++ v.tag, v.shows⟩
-  if c.mode == 2 then ifaceWant ++ tagWant
+  -- documented: a custom validator's error ends the call; WithRunAll adds up the applicable strategies;
+  -- StrategyAuto prefers the type's own Validate method
+  if let some errs := c.custom then errs.map fun e => ⟨e.path, e.code, []⟩
+  else if c.mode == 2 then ifaceWant ++ tagWant
   else if c.mode == 3 then ifaceWant
+  else if c.strat == .auto && c.applic.iface then ifaceWant
   else if c.mode == 1 then tagWant
   else expectedErrs o.pm c.rules c.opts
 
